@@ -43,11 +43,11 @@ const (
 	ckRollback
 	ckResolve
 	ckCheckTxn
-	ckTwoGets       // two Get requests in one read command
-	ckScanPropose   // Scan sent through ProposeCommand (the raft log)
-	ckGetPropose    // Get sent through ProposeCommand
-	ckPrewriteTwo   // one Prewrite with two mutations
-	ckWriteTwoReqs  // Prewrite + Commit requests in one command
+	ckTwoGets      // two Get requests in one read command
+	ckScanPropose  // Scan sent through ProposeCommand (the raft log)
+	ckGetPropose   // Get sent through ProposeCommand
+	ckPrewriteTwo  // one Prewrite with two mutations
+	ckWriteTwoReqs // Prewrite + Commit requests in one command
 	ckCount
 )
 
